@@ -5,7 +5,7 @@ import json, os, subprocess
 ROOT = os.path.dirname(os.path.dirname(os.path.abspath(__file__)))
 
 CHECKS = {
- "C01": ("reference-model oracle at the API boundary: full accessor sweep of index(push(v)) over a typed catalogue of 99 compositions, default and statistics-trained regions, two build profiles", "5/C01"),
+ "C01": ("reference-model oracle at the API boundary: full accessor sweep of index(push(v)) over a typed catalogue of 102 compositions, default and statistics-trained regions, two build profiles", "5/C01"),
  "C02": ("reference-model oracle: all issued indices re-read after every operation of random, long and bounded-exhaustive histories (push / reserve_items / reserve_regions / FlatStack::reserve), two build profiles", "5/C02"),
  "C03": ("reference-model oracle: FlatStack vs Vec model after every operation (len, get, iterators, size hints, Debug, out-of-bounds must panic) for every index container, two build profiles", "5/C03"),
  "C04": ("in-crate UTF-8 probe at the unchecked conversion (hook) read after every operation + byte equality of every returned &str + run-time entry-point probe of the compiled Push impls; Miri tier in thorough", "5/C04"),
@@ -34,7 +34,7 @@ LEVEL_NOTE = ("Trusted: the harness's owned-value model (Vec of pushed values), 
               "harness/src/catalogue.rs and the value generators in harness/src/val.rs; paths the workloads do not drive are not covered.")
 
 SPECIFIC = {
- "C01": "Held-on-K-executions claim over 99 typed compositions x all listed input forms x three value domains x default / statistics-trained regions; no exhaustive part, the catalogue and generators are samples of 'every composition / value'.",
+ "C01": "Held-on-K-executions claim over 102 typed compositions x all listed input forms x three value domains x default / statistics-trained regions; no exhaustive part, the catalogue and generators are samples of 'every composition / value'.",
  "C02": "All histories of length <= 4 (quick) / 6 (thorough) over {push a, push b, push c, reserve_items, reserve_regions} on 14 small entries are enumerated completely; beyond that random short, long (300 / 2500 ops) and marathon (70k / 300k pushes) histories with full or sampled re-reads.",
  "C03": "FlatStack compared with a Vec model after every operation for each of the three index containers; exploration only.",
  "C04": "The hook observes every byte string that reaches the crate's single unchecked UTF-8 conversion in the executions driven; the program-text half of the quantifier is approximated by probing the compiled Push impls for 20 non-string input types and is otherwise out of reach for runtime monitoring. Thorough adds Miri, which judges any unsafe code the workload executes.",
